@@ -25,10 +25,12 @@ package generator
 //@   ensures [C13:message-literal] result == jsonQuote(replaceAll(s, "\"", "'"))
 
 //@ func profileName(profile profile.Profile) string
-//@   ensures [C13:profile-name-literal] result == "report[\"profile\"] = " + jsonQuote(profile.Name)
+//@   verify [C03]
+//@   ensures [C13:profile-name-literal,C03] result == "report[\"profile\"] = " + jsonQuote(profile.Name)
 
 //@ func wrapBranch(name string, message profile.Message, branch BranchRegoResult, matchesVariable string, mappingVariable string, iriExpander *misc.IriExpander) []string
-//@   ensures [C13:validation-name-literal] len(result) >= 1 && hasPrefix(result[len(result) - 1], "  " + matchesVariable + " := error(" + jsonQuote(name) + "," + mappingVariable + ", message ,[")
+//@   verify [C03]
+//@   ensures [C13:validation-name-literal,C03] len(result) >= 1 && hasPrefix(result[len(result) - 1], "  " + matchesVariable + " := error(" + jsonQuote(name) + "," + mappingVariable + ", message ,[")
 //@   ensures [C12:one-trace-binding-per-atom] exists q []string :: len(q) == len(branch.Branch) && (forall j int :: 0 <= j && j < len(q) ==> q[j] == "_result_" + itoa(j)) && result[len(result) - 1] == "  " + matchesVariable + " := error(" + jsonQuote(name) + "," + mappingVariable + ", message ,[" + strJoin(q, ",") + "])"
 //@   loop 1 /* for i, r := range branch.Branch */
 //@     invariant [C12] len(resultBindings) == #i && (forall j int :: 0 <= j && j < #i ==> resultBindings[j] == "_result_" + itoa(j))
